@@ -522,7 +522,8 @@ Definition c10_oracle (c : sx) (impl : list ev) : bool :=
 Definition c15_oracle (c : sx) (impl : list ev) : bool :=
   match impl with
   | [EvBytes a; EvBytes b] => list_N_eqb a b
-  | [EvPanic] | [EvBytes _; EvPanic] => match c with SL [x; _] => match expect false x with Some _ => false | None => true end | _ => false end
+  | [EvPanic] => match c with SL [x; _] => match expect false x with Some _ => false | None => true end | _ => false end
+  | [EvBytes _; EvPanic] => false      (* one construction path emitted what the other refused: the paths disagree *)
   | _ => false
   end.
 
